@@ -146,6 +146,12 @@ def class_source(cls) -> str:
             lines.append(f"    {a['name']}: {ann} = {render_value(a['default'])}")
         else:
             lines.append(f"    {a['name']}: {ann}")
+    if cls.get("alias_var"):
+        # the parameter of the module-level aliases is spelled like the class's own type parameter (`type A0[T] = ...` next
+        # to `class C0[T]`): two unrelated variables that only share a name
+        import re as _re
+
+        aliases = [_re.sub(r"\bX\b", cls["alias_var"], line) for line in aliases]
     head = "class C0[T](State):" if cls["generic"] else "class C0(State):"
     if not lines:
         lines = ["    pass"]
